@@ -105,6 +105,7 @@ def tag_list(lst, roles):
             a.roles = tuple(roles) + (None,) * (len(a.shape) - len(roles))
         return v
     lst.fn = f
+    lst.role_tag = tuple(roles)
     return lst
 
 
